@@ -28,7 +28,7 @@ if [ -d $SRC/zz_demo ]; then cp -r $SRC/zz_demo $WT/; DEMOCMD="go run ./zz_demo"
 echo "== demo WITH the change: $DEMOCMD" | tee -a $OUT/verify.log
 ( eval "$DEMOCMD" ) 2>&1 | tail -6 | tee -a $OUT/verify.log
 git diff --name-only | grep -v "zz_" > /tmp/changed_$$.txt
-git stash -q -- $(cat /tmp/changed_$$.txt) 2>/dev/null || git checkout -- $(cat /tmp/changed_$$.txt)
+git checkout -- $(cat /tmp/changed_$$.txt)   # (never git stash: the stash ref is shared with /repo)
 echo "== demo WITHOUT the change" | tee -a $OUT/verify.log
 ( eval "$DEMOCMD" ) 2>&1 | tail -4 | tee -a $OUT/verify.log
 cd /; git -C /repo worktree remove --force $WT; git -C /repo worktree prune
